@@ -308,7 +308,7 @@ def run_case(case, ctx):
 
 
 def shard_main(ctx):
-    ctx.explore("emulation", cases(), run_case, ctx.n(60, 1500))
+    ctx.explore("emulation", cases(), run_case, ctx.n(180, 2000))
 
 
 def replay(case, ctx):
